@@ -55,6 +55,8 @@ pub enum Op {
     CreateDir(String, bool),
     WriteArchive(String, bool),
     WriteTextArchive(String, bool),
+    /// write_text_archive of an archive that was PARSED and not edited (dirty flag clear)
+    WriteCleanTextArchive(String, bool),
 }
 
 pub struct Config {
@@ -310,6 +312,8 @@ fn list_in(tree: &Tree, dir: &str, glob: Option<&str>) -> BTreeSet<String> {
             None | Some("**/*") => true,
             Some("*") => direct,
             Some("*.bin") => direct && last.ends_with(".bin"),
+            // a pattern that starts with a literal directory: the direct children of dir/e
+            Some("e/*") => rel.starts_with("e/") && !rel[2..].contains('/') && rel.len() > 2,
             Some("**/*.txt") => last.ends_with(".txt"),
             Some(other) => panic!("glob {} not in the family", other),
         };
@@ -368,7 +372,21 @@ impl Sys {
         let t = scratch.root.join("TOP");
         materialise(&t, top);
         roots.push(t);
-        let fs = LayeredFilesystem::new(roots.iter().map(|r| r.display().to_string()).collect(), self.cfg.language(), self.cfg.game()).map_err(|e| e.to_string())?;
+        // the roots are handed over in NON-canonical spellings (a `..` detour, a trailing slash, a
+        // `.` component): what is listed must still be layer-relative
+        let spelled: Vec<String> = roots
+            .iter()
+            .enumerate()
+            .map(|(i, r)| {
+                let name = r.file_name().map(|n| n.to_string_lossy().to_string()).unwrap_or_default();
+                match i % 3 {
+                    0 => format!("{}/../{}", r.display(), name),
+                    1 => format!("{}/", r.display()),
+                    _ => format!("{}/./", r.display()),
+                }
+            })
+            .collect();
+        let fs = LayeredFilesystem::new(spelled, self.cfg.language(), self.cfg.game()).map_err(|e| e.to_string())?;
         Ok(World { _scratch: scratch, roots, fs })
     }
     fn actual(&self, p: &str, loc: bool) -> Option<String> {
@@ -395,6 +413,10 @@ impl Sys {
                 }
                 w.fs.write_text_archive(p, &t, *loc).map_err(|e| e.to_string())
             }
+            Op::WriteCleanTextArchive(p, loc) => {
+                let t = TextArchive::from_bytes(&self.cfg.text_archive_bytes(), self.cfg.text_format(), arch::endian(self.cfg.endian())).map_err(|e| e.to_string())?;
+                w.fs.write_text_archive(p, &t, *loc).map_err(|e| e.to_string())
+            }
         }
     }
     /// Model of one call on the on-disk top layer. On success returns, for calls that must
@@ -405,7 +427,7 @@ impl Sys {
             Op::Write(p, pi, loc) => (p, *loc, Some(self.cfg.payloads()[*pi].clone())),
             Op::CreateDir(p, loc) => (p, *loc, None),
             Op::WriteArchive(p, loc) => (p, *loc, Some(arch::build(&self.cfg.small_archive(), None).and_then(|x| x.serialize().map_err(|e| e.to_string())).map_err(|_| ())?)),
-            Op::WriteTextArchive(p, loc) => (p, *loc, Some(self.cfg.text_archive_bytes())),
+            Op::WriteTextArchive(p, loc) | Op::WriteCleanTextArchive(p, loc) => (p, *loc, Some(self.cfg.text_archive_bytes())),
         };
         let a = self.actual(p, loc).ok_or(())?;
         match payload {
@@ -526,7 +548,7 @@ impl Sys {
     fn observe_typed(&self, w: &World, out: &mut Vec<(String, String)>) {
         // bin archive in the game's endianness
         let want = self.cfg.small_archive();
-        for p in ["t/arch.bin".to_string(), format!("t/arch.bin{}", self.cfg.sfx())] {
+        for p in ["t/arch.bin".to_string(), format!("t/arch.bin{}", self.cfg.sfx()), format!("t/foreign.bin{}", self.cfg.sfx())] {
             match w.fs.read_archive(&p, false) {
                 Err(e) => out.push(("typed:read_archive".into(), format!("read_archive({:?}) failed: {} (the file holds a {:?}-endian archive)", p, e, self.cfg.endian()))),
                 Ok(a) => {
@@ -582,6 +604,31 @@ impl Sys {
                         (d, f) => out.push((format!("typed:read_{}_textures", ext), format!("read_{}_textures({:?}) = {:?} but the container reader on read() gives {:?} (expected {} textures)", ext, p, f.map(|v| v.len()), d.map(|v| v.len()), want_n))),
                     }
                 }
+            }
+            // which file names are "compressed" for each codec
+            for (name, lz10, lz13) in [("a.cmp", true, false), ("a.cms", true, false), ("a.lz", false, true), ("dir/GameData.bin.lz", false, true), ("dir/x.bin.cmp", true, false), ("a.bin", false, false), ("a", false, false), ("", false, false), ("a.lz.bin", false, false), ("a.cmp.txt", false, false)] {
+                let g10 = mila::CompressionFormat::LZ10(mila::LZ10CompressionFormat {}).is_compressed_filename(name);
+                let g13 = mila::CompressionFormat::LZ13(mila::LZ13CompressionFormat {}).is_compressed_filename(name);
+                if g10 != lz10 || g13 != lz13 {
+                    out.push(("typed:is_compressed_filename".into(), format!("is_compressed_filename({:?}) = LZ10 {} / LZ13 {}, expected {} / {}", name, g10, g13, lz10, lz13)));
+                }
+            }
+            // configuration getters: the game's localizer, the language, the endianness, the top layer
+            for p in ["d/a", "m", "x/y/z.bin"] {
+                let got = w.fs.localizer().localize(p, &w.fs.language()).map_err(|e| e.to_string());
+                let want = self.cfg.localize(p);
+                if got.as_ref().ok() != want.as_ref() {
+                    out.push(("typed:localizer".into(), format!("localizer().localize({:?}, language()) = {:?}, the game's mapping gives {:?}", p, got, want)));
+                }
+            }
+            if format!("{:?}", w.fs.language()) != format!("{:?}", self.cfg.language()) {
+                out.push(("typed:language".into(), format!("language() = {:?}", w.fs.language())));
+            }
+            if format!("{:?}", w.fs.endian()) != format!("{:?}", arch::endian(self.cfg.endian())) {
+                out.push(("typed:endian".into(), format!("endian() = {:?} for {:?}", w.fs.endian(), self.cfg.loc)));
+            }
+            if std::fs::canonicalize(w.fs.write_layer().root()).ok() != std::fs::canonicalize(&w.roots[w.roots.len() - 1]).ok() {
+                out.push(("typed:write_layer".into(), format!("write_layer().root() = {:?}, the highest-priority layer is {:?}", w.fs.write_layer().root(), w.roots[w.roots.len() - 1])));
             }
             if w.fs.text_archive_format() as u8 != self.cfg.text_format() as u8 {
                 out.push(("typed:text_archive_format".into(), "text_archive_format() is not the game's text encoding".into()));
@@ -681,7 +728,7 @@ impl Sys {
     fn observe_c13(&self, w: &World, top: &Tree, out: &mut Vec<(String, String)>) {
         let layers = self.layers_for(top);
         let dirs = ["", "d", "d/", "d/e", "nope", "a", "t"];
-        let globs: [Option<&str>; 5] = [None, Some("*"), Some("*.bin"), Some("**/*.txt"), Some("**/*")];
+        let globs: [Option<&str>; 6] = [None, Some("*"), Some("*.bin"), Some("**/*.txt"), Some("**/*"), Some("e/*")];
         let mut seen = std::collections::HashSet::new();
         for dir in dirs {
             for loc in [false, true] {
@@ -734,6 +781,7 @@ impl System for Sys {
         v.push(Op::WriteArchive("d/a".into(), false));
         v.push(Op::WriteArchive(format!("d/b{}", self.cfg.sfx()), true));
         v.push(Op::WriteTextArchive("d/e/c".into(), false));
+        v.push(Op::WriteCleanTextArchive("d/e/c".into(), true));
         v
     }
     fn step(&self, s: &St, _history: &[Op], op: &Op) -> Step<St> {
@@ -744,6 +792,7 @@ impl System for Sys {
             Op::CreateDir(..) => "create_dir",
             Op::WriteArchive(..) => "write_archive",
             Op::WriteTextArchive(..) => "write_text_archive",
+            Op::WriteCleanTextArchive(..) => "write_text_archive(clean)",
         };
         let mut wit = 0u64;
         // witnesses
@@ -763,7 +812,7 @@ impl System for Sys {
         }
         // paths touched by the call, for the same-instance observers
         let op_path: &str = match op {
-            Op::Write(p, _, _) | Op::CreateDir(p, _) | Op::WriteArchive(p, _) | Op::WriteTextArchive(p, _) => p,
+            Op::Write(p, _, _) | Op::CreateDir(p, _) | Op::WriteArchive(p, _) | Op::WriteTextArchive(p, _) | Op::WriteCleanTextArchive(p, _) => p,
         };
         let mut related_dirs: Vec<String> = vec![String::new()];
         {
@@ -772,7 +821,7 @@ impl System for Sys {
                 related_dirs.push(cs[..i].join("/"));
             }
         }
-        let globs: [Option<&str>; 5] = [None, Some("*"), Some("*.bin"), Some("**/*.txt"), Some("**/*")];
+        let globs: [Option<&str>; 6] = [None, Some("*"), Some("*.bin"), Some("**/*.txt"), Some("**/*"), Some("e/*")];
         let r = util::catch(|| -> Result<(Result<(), String>, Vec<Tree>, Vec<(String, String)>), String> {
             let w = self.build_world(&s.top)?;
             // queries BEFORE the call on the same instance (a cache filled here must not go stale)
@@ -906,6 +955,21 @@ fn typed_layer(cfg_loc: Loc, probe: &Config) -> Tree {
     t.insert("t/arch.bin".into(), file(&arch_bytes));
     t.insert(format!("t/arch.bin{}", probe.sfx()), file(&probe.encode_stored(&arch_bytes)));
     t.insert("t/text.bin".into(), file(&probe.text_archive_bytes()));
+    // a conforming compressed file the library's own writer never produces: for the LZ13 games
+    // an LZ11 stream with the 8-byte header (24-bit size 0, 32-bit size follows); for the LZ10
+    // games a stream made of literals only
+    {
+        let toks: Vec<Token> = arch_bytes.iter().map(|b| Token::Lit(*b)).collect();
+        let stream = match probe.loc {
+            Loc::FE9 | Loc::FE10 => ref_lz::encode(&toks, Kind::Lz10, arch_bytes.len(), None),
+            _ => {
+                let mut v = vec![0x13, 0x55, 0x66, 0x77];
+                v.extend(ref_lz::encode_with_header(&toks, Kind::Lz11, arch_bytes.len(), None, true));
+                v
+            }
+        };
+        t.insert(format!("t/foreign.bin{}", probe.sfx()), file(&stream));
+    }
     t.insert(format!("t/z{}", probe.sfx()), file(b"\x77not a compressed stream"));
     if let Ok(b) = std::fs::read("/repo/resources/test/FE9Arc.bin") {
         t.insert("t/pack.bin".into(), file(&b));
@@ -944,6 +1008,8 @@ fn lower_choices(probe: &Config) -> Vec<(&'static str, Tree)> {
     // "a" holds exactly payload 1 ([7]): writing the same bytes on top must still create the file
     v.push(("a", [("a".to_string(), file(&[7]))].into_iter().collect()));
     v.push(("a+d/a", [("a".to_string(), file(b"lowA")), ("d".to_string(), Node::Dir), ("d/a".to_string(), file(&[7])), ("d/x.bin".to_string(), file(b"x")), ("d/y.txt".to_string(), file(b"y")),
+        // names that differ from the patterns' letters in case only (matching is case-sensitive)
+        ("d/UPPER.BIN".to_string(), file(b"U")), ("d/Y.TXT".to_string(), file(b"Y")), ("d/E".to_string(), Node::Dir), ("d/E/in.bin".to_string(), file(b"e")),
         // siblings whose names extend a directory name with characters that sort below '/':
         // string order and path-component order differ on them
         ("d-old".to_string(), file(b"o")), ("d.bin".to_string(), file(b"b")), ("d e".to_string(), Node::Dir), ("d e/f".to_string(), file(b"f"))].into_iter().collect()));
@@ -1088,7 +1154,9 @@ fn scale_script(sys: &Sys, o: &mut Outcome) -> u64 {
         let sfx = sys.cfg.sfx();
         for n in [255usize, 256, 65_535, 65_536, 70_001] {
             for (kind, payload) in [("compressible", (0..n).map(|i| (i % 7) as u8).collect::<Vec<u8>>()), ("incompressible", crate::lzfam::norepeat(n.min(70_001), n as u32))] {
-                for (p, loc) in [(format!("big/x{}{}", n, sfx), false), (format!("big/y{}{}", n, sfx), true), (format!("big/z{}.bin", n), false)] {
+                // FE9/FE10 have a second compressed suffix (.cms)
+                let sfx2 = if sfx == ".cmp" { ".cms" } else { sfx };
+                for (p, loc) in [(format!("big/x{}{}", n, sfx), false), (format!("big/y{}{}", n, sfx), true), (format!("big/z{}.bin", n), false), (format!("big/w{}{}", n, sfx2), true)] {
                     match w.fs.write(&p, &payload, loc) {
                         Err(e) => out.push(("scale:write-failed".to_string(), format!("write({:?}, {} {} bytes, localized={}) failed: {}", p, n, kind, loc, e))),
                         Ok(()) => match w.fs.read(&p, loc) {
@@ -1183,6 +1251,10 @@ pub fn configs_c14(tier: Tier) -> Vec<Config> {
             Tier::Quick => 1,
             Tier::Thorough => 2,
         };
+        // two-step histories (an unlocalized write, then a localized one) for the two main pairs
+        if c.name.contains("a+d/a") && [(Loc::FE10, Lang::German), (Loc::FE14, Lang::EnglishNA)].contains(&(c.loc, c.lang)) {
+            c.depth = 2;
+        }
         c
     }).collect()
 }
